@@ -12,10 +12,10 @@ RULE = ("dumps written by an independent serialiser from generated tissues: arbi
         "attribute), extra unattached vertices and edges, large and tiny coordinates, plus every shipped .dmp; non-trivial = at least "
         "3 faces; distinct = the dump text")
 TRUSTED = ["Model/SEParse.v (token level) tied to surface_evolver.get_cells / get_edges / create_lattice by exact correspondence on every "
-           "generated dump; float() and round() are oracles; the layout (blank line before each section header, bodies in face order) is "
+           "generated dump; Model/Round.v (Python's round as exact half-even rounding of the double's value, numpy's rint-based rounding for the density that comes out of a pandas column) tied to every stored coordinate, density and multiplier, exactly and bit for bit; float() is an oracle (the token's double is handed to the model); the layout (blank line before each section header, bodies in face order) is "
            "what 'laid out like the shipped ones' means"]
-ASSUMPTIONS = ["generated coordinates and densities stay 1e-6 away from rounding ties"]
-TESTED_NOT_PROVED = ["numeric fields (coordinates, densities, multipliers) and the interface reference tension (mean of mesh-edge densities) are compared by the oracle"]
+ASSUMPTIONS = ["apart from the deliberate exact ties and next-to-tie values, generated numbers stay 1e-6 away from rounding ties (the serialiser prints a double, the expected value is computed from the printed token)"]
+TESTED_NOT_PROVED = ["the interface reference tension (mean of mesh-edge densities) is compared by the oracle; that float() returns the double nearest to the token is not modelled"]
 IMPORTS = "From Coq Require Import String.\nFrom Forsys Require Import Model.CaseUtil Model.SEParse Model.Round.\nOpen Scope string_scope.\n"
 WORKDIR = os.path.join(C.WORK, "dumps")
 
